@@ -370,6 +370,10 @@ func TestC13(t *testing.T) {
 				}
 				flush()
 			}
+			// ---- multi-step hostile sequences
+			if idx++; mine(idx) {
+				c13Sequences(x, seeds)
+			}
 			// ---- E..F only once per configuration class
 			if idx++; mine(idx) {
 				c13Caps(x)
@@ -412,6 +416,7 @@ func wrapStream(c rcfg, plain []byte) []byte {
 // the data is buffered.
 func c13Caps(x *c13Run) {
 	c := x.cfg
+	x.fresh() // whatever ran before may have delivered decodable messages
 	type capCase struct {
 		desc  string
 		plain []byte
@@ -583,4 +588,87 @@ func c13Concurrency(x *c13Run) {
 		x.rep.Violate("handoff-queue-depth", res, nil)
 	}
 	x.rep.Outcome("concurrency-caps")
+}
+
+
+// sealPacket wraps a plaintext message the way a sender configured with c would.
+func sealPacket(c rcfg, plain []byte) []byte {
+	out := plain
+	if ks := c.keyList(); len(ks) > 0 {
+		out, _ = ml.VEncryptPayload(c.EncVsn, ks[0], plain, []byte(c.Label))
+	}
+	out, _ = ml.AddLabelHeaderToPacket(out, c.Label)
+	return out
+}
+
+// c13Sequences: hostile inputs that need state left behind by an earlier
+// (genuine or hostile) input.
+func c13Sequences(x *c13Run, seeds []seed) {
+	c := x.cfg
+	// (1) a relayed probe is pending (genuine indirect-ping), then acks and nacks for every nearby
+	// sequence number, incl. the relay's own fresh number, from anybody
+	x.fresh()
+	for _, sd := range seeds {
+		if sd.Family == "indirect-ping" {
+			x.rcv.injectPacket(sd.Buf)
+		}
+	}
+	for seq := uint32(0); seq <= 8; seq++ {
+		for _, kind := range []uint8{ml.VNackRespMsg, ml.VAckRespMsg} {
+			journal("C13 %v sequence indirect-ping then type %d seq %d", c, kind, seq)
+			x.rep.Evaluations++
+			var plain []byte
+			if kind == ml.VNackRespMsg {
+				plain, _ = ml.VEncode(kind, &ml.VNackResp{SeqNo: seq}, false)
+			} else {
+				plain, _ = ml.VEncode(kind, &ml.VAckResp{SeqNo: seq}, false)
+			}
+			x.rcv.injectPacket(sealPacket(c, plain))
+			x.rcv.injectPacket(sealPacket(c, ml.VMakeCompound([][]byte{plain, plain})))
+		}
+	}
+	x.livenessProbe("acks and nacks while a relayed probe is pending")
+	x.rep.Outcome("sequence:relay-pending")
+	// (2) a node that has left (no alive local record) with a merge delegate, receiving join and
+	// non-join push/pull lists whose entries carry short / empty / odd version vectors
+	x.rcv.retire()
+	mg := &mergeRec{}
+	x.rcv = newReceiver(x.b, c, func(cf *ml.Config) { cf.Merge = mg })
+	// ... and every peer it knew is dead: no alive record constrains the accepted version range
+	for _, peer := range []string{twinS, "victim"} {
+		x.rcv.n.M.VDeadNode(&ml.VDead{Incarnation: 1, Node: peer, From: "somebody"})
+	}
+	done := make(chan error, 1)
+	go func() { done <- x.rcv.n.M.Leave(200 * time.Millisecond) }()
+	settle()
+	time.Sleep(300 * time.Millisecond)
+	settle()
+	<-done
+	for _, vsn := range [][]uint8{nil, {}, {1}, {1, 5, 2}, {1, 5, 2, 0, 0}, {1, 5, 2, 0, 0, 0}, {1, 5, 2, 0, 0, 0, 9}, {0, 0, 0, 0, 0, 0}, {255, 255, 255, 255, 255, 255}} {
+		for _, join := range []bool{true, false} {
+			for _, st := range []ml.NodeStateType{ml.StateAlive, ml.StateDead, ml.NodeStateType(9)} {
+				journal("C13 %v sequence left+merge-delegate push/pull vsn=%v join=%v state=%d", c, vsn, join, st)
+				x.rep.Evaluations++
+				nodes := []ml.VPushNodeState{{Name: "pp1", Addr: ip4(61), Port: 7946, Incarnation: 1, State: st, Vsn: vsn}, {Name: twinR, Addr: ip4(2), Port: 7946, Incarnation: 3, State: ml.StateAlive, Vsn: vsn}}
+				buf := bytes.NewBuffer(nil)
+				hdr, _ := ml.VEncode(ml.VPushPullMsg, &ml.VPushPullHeader{Nodes: len(nodes), UserStateLen: 0, Join: join}, false)
+				buf.Write(hdr)
+				for i := range nodes {
+					e, _ := ml.VEncode(0, &nodes[i], false)
+					buf.Write(e[1:])
+				}
+				_, hc := x.rcv.injectStream(wrapStream(c, buf.Bytes()), true, 0)
+				settle()
+				if !hc.IsClosed() {
+					time.Sleep(2*x.rcv.n.Cfg.TCPTimeout + time.Second)
+					settle()
+					if !hc.IsClosed() {
+						x.rep.Violate("stream-handler-leaked:sequence", fmt.Sprintf("%v left node, vsn=%v join=%v", c, vsn, join), nil)
+					}
+				}
+			}
+		}
+	}
+	x.rep.Outcome("sequence:left-node-with-merge-delegate")
+	x.fresh()
 }
